@@ -1,5 +1,5 @@
 """C17 - SSC to SM conversion applies the caller's policy to every SSC-only property (structural clauses)."""
-from ..rules import convert, fwd, records, baseline
+from ..rules import convert, fwd, records, baseline, views, state
 
 EXPLANATION = (
     "Static rule checking of ssc_to_sm: R-EXC the may-raise set - explicit raises in the resolved call tree must be within "
@@ -34,6 +34,11 @@ def c5(ctx):
     convert.ssc_target_tables(ctx, 'ssc_to_sm')
 
 
+def c_views(ctx):
+    views.key_chooser(ctx)
+    state.shared_state(ctx, ['simfile.convert:ssc_to_sm'], 'the conversion of one simfile depends on that simfile, the templates and the policy only')
+
+
 def c_api(ctx):
     baseline.surface(ctx, "C17: documented surface", modules=['simfile.convert'], keys=['simfile.ssc.SSCSimfile', 'simfile.ssc.SSCChart', 'simfile.sm.SMSimfile'])
 
@@ -42,5 +47,6 @@ CLAUSES = [
     ("C17.2-4", "table completeness; defaults agree with the blank templates (R-TABLE)", c2),
     ("C17.3", "behaviour dispatch total with the documented outcomes; policy forwarded", c3),
     ("C17.5", "purity, chart order, warps check first", c5),
+    ("C17.7", "properties are read and written through the attribute views under the documented key (alias exactly when the standard key is absent); no process-wide state between conversions (R-STATE)", c_views),
     ("C17.api", "public surface: signatures and defaults, constants, enumerations, blank templates, base classes as confirmed (R-API)", c_api),
 ]
